@@ -374,6 +374,7 @@ def execStmt (w : World τ) (a : ActId) (fs : List (Frame τ)) : Stmt τ → Wor
     { w with userRaises := w.userRaises + 1 }.raiseTo a fs e
   | .tryCatch body handlers => w.retTo a (.seq body :: .tryBlock handlers :: fs) .unit
   | .ret v =>
+    let w := w.emit a "ret" [v]
     match fs with
     | _ :: below => w.retTo a (.retVal v :: below) .unit
     | [] => w.retTo a fs (.int v)
